@@ -2,6 +2,10 @@
 (* Bounded instances of Identity.tla.  Keys are strings so that emitted cases are JSON-friendly. *)
 EXTENDS Identity, Json, SequencesExt
 
+\* 1: print a case for every complete state; k > 1: for about one state in k (the big instances:
+\* every state is still model-checked, a sample is replayed against the implementation)
+CONSTANT EmitEvery
+
 \* documents: 1 = initial {a,b,c,d}; 2 = same delegates, other content; 3 = {a,b} (c, d removed);
 \*            4 = {a,b,c,d,s} (the stranger becomes a delegate)
 MCDocDels == << {"a","b","c","d"}, {"a","b","c","d"}, {"a","b"}, {"a","b","c","d","s"} >>
@@ -16,7 +20,7 @@ RevOut(r) == [id |-> r, parent |-> st.revs[r].parent, author |-> st.revs[r].auth
               accepts |-> Accepts(st.revs[r]), rejects |-> Rejects(st.revs[r])]
 
 Emit ==
-    Complete =>
+    (Complete /\ (EmitEvery = 1 \/ TLCGet("distinct") % EmitEvery = 0)) =>
     LET ids == SetToSeq(DOMAIN st.revs) IN
     PrintT(<<"CASE", ToJson([log |-> log,
                              current |-> st.current,
